@@ -524,3 +524,82 @@ Proof.
     intros i k _ _ [-> X]. split; auto. destruct Hsz as [_ [Hp _]].
     pose proof (pointerAddress_ge dst (PointerCount (p_size src) + k0) Hds ltac:(lia) Hdo). lia.
 Qed.
+
+(* ------------------------------------------------------------------ corollaries *)
+(* reads of bytes that existed before and are outside R are unchanged *)
+Lemma keeps_slice m m' R i base n :
+  keeps m m' R -> 0 <= i -> 0 <= base -> 0 <= n -> base + n <= zlen (mem m i) -> zlen (mem m' i) < 4294967296 ->
+  (forall k, base <= k < base + n -> ~ R i k) ->
+  slice (mem m' i) base n = slice (mem m i) base n.
+Proof.
+  intros [K1 K2] Hi Hb Hn Hin Hl HR. specialize (K1 i Hi).
+  rewrite !slice_ok by lia. f_equal. unfold sub.
+  apply nth_ext with (d := 0) (d' := 0).
+  - rewrite !firstn_length, !skipn_length. unfold zlen in *. lia.
+  - intros k Hk. rewrite firstn_length, skipn_length in Hk. unfold zlen in *.
+    rewrite !nth_firstn_lt by lia. rewrite !nth_skipn_add.
+    replace (Z.to_nat base + k)%nat with (Z.to_nat (base + Z.of_nat k)) by lia.
+    apply K2; auto; try lia. apply HR. lia.
+Qed.
+
+(* [write_ptr_frame]: Struct.SetPtr / PointerList.Set / Message.SetRoot (all are write_ptr with
+   forceCopy = false): the only pre-existing byte range that may change is the pointer word;
+   the source message is not modified; the message stays well formed and only grows *)
+Theorem write_ptr_frame fuel strict w dsid off l src w' :
+  inv (w_dst w) -> 0 <= dsid < nsegs (w_dst w) -> sz_ok src ->
+  (l = InDst -> p_valid src = true -> 0 <= p_seg src < nsegs (w_dst w)) ->
+  write_ptr fuel strict w dsid off l src false = Ok w' ->
+  keeps (w_dst w) (w_dst w') (Rword dsid off) /\ inv (w_dst w') /\
+  nsegs (w_dst w) <= nsegs (w_dst w') /\ w_src w' = w_src w.
+Proof.
+  intros Hi Hd Hs Hr H. destruct (frame_all fuel) as [P _].
+  apply (P strict w dsid off l src false w'); auto.
+  intros E Hv. apply Hr; auto. destruct l; [reflexivity|discriminate].
+Qed.
+
+(* [copy_struct_frame]: List.SetStruct / Struct.CopyFrom change nothing before the start of the
+   destination struct in its segment and nothing in any other segment (besides appending) *)
+Theorem copy_struct_frame fuel strict w dst l src w' :
+  inv (w_dst w) -> 0 <= p_seg dst < nsegs (w_dst w) -> wf_size (p_size dst) -> 0 <= p_off dst <= 4294967295 ->
+  sz_ok src ->
+  copy_struct fuel strict w dst l src = Ok w' ->
+  keeps (w_dst w) (w_dst w') (Rfrom dst) /\ inv (w_dst w') /\
+  nsegs (w_dst w) <= nsegs (w_dst w') /\ w_src w' = w_src w.
+Proof. intros. destruct (frame_all fuel) as [_ P]. apply (P strict w dst l src w'); auto. Qed.
+
+(* [copy_fresh]: a deep copy (assignment of a pointer from another message, of a list member,
+   or any forced copy) leaves every byte of the source untouched - the source message is
+   returned unchanged and, inside the destination, only the pointer word among the bytes that
+   existed before the call may differ - so everything the copy consists of lies in storage
+   allocated during the call.  Hence any later write into the copy (a range beyond the old
+   segment lengths) is disjoint from every source byte range, and any later write into a
+   source byte range is disjoint from the copy: by [wrote_slice_other] neither shows through. *)
+Theorem copy_fresh fuel strict w dsid off l src fc w' i base n :
+  inv (w_dst w) -> 0 <= dsid < nsegs (w_dst w) -> sz_ok src ->
+  ((fc || is_src l) = false -> p_valid src = true -> 0 <= p_seg src < nsegs (w_dst w)) ->
+  write_ptr fuel strict w dsid off l src fc = Ok w' ->
+  w_src w' = w_src w /\
+  (0 <= i -> 0 <= base -> 0 <= n -> base + n <= zlen (mem (w_dst w) i) -> zlen (mem (w_dst w') i) < 4294967296 ->
+   (i <> dsid \/ base + n <= off \/ off + 8 <= base) ->
+   slice (mem (w_dst w') i) base n = slice (mem (w_dst w) i) base n).
+Proof.
+  intros Hi Hd Hs Hr H. destruct (frame_all fuel) as [P _].
+  destruct (P strict w dsid off l src fc w' Hi Hd Hs Hr H) as (K & _ & _ & S).
+  split; [exact S|]. intros H0 H1 H2 H3 H4 H5. eapply keeps_slice; eauto.
+  intros k Hk [X1 X2]. lia.
+Qed.
+
+(* allocations made at different times never overlap: the later one starts at or after the end
+   of the earlier one whenever they are in the same segment (lengths only grow in between) *)
+Theorem allocs_disjoint m sid sz m1 s1 a1 m2 sid2 sz2 m3 s2 a2 :
+  inv m -> 0 <= sid < nsegs m -> 0 <= sz -> alloc m sid sz = Ok (m1, s1, a1) ->
+  (forall i, 0 <= i -> zlen (mem m1 i) <= zlen (mem m2 i)) ->
+  inv m2 -> 0 <= sid2 < nsegs m2 -> 0 <= sz2 -> alloc m2 sid2 sz2 = Ok (m3, s2, a2) ->
+  s1 <> s2 \/ a1 + padToWord sz <= a2.
+Proof.
+  intros Hi Hs Hz A1 Hgrow Hi2 Hs2 Hz2 A2.
+  destruct (alloc_keeps _ _ _ _ _ _ Hi Hs Hz A1) as (_ & _ & _ & S1 & E1 & L1 & _).
+  destruct (alloc_keeps _ _ _ _ _ _ Hi2 Hs2 Hz2 A2) as (_ & _ & _ & S2 & E2 & _).
+  destruct (Z.eq_dec s1 s2) as [->|Hne]; [right|left; exact Hne].
+  specialize (Hgrow s2 ltac:(lia)). lia.
+Qed.
